@@ -6,7 +6,8 @@ import TbotVerif.Driver.Shell
     obs:   one token per op `<val>/<ran>/<written>/<pieces>` with
              val = `rc:<status>:<text>` | `out:<text>` | `b0|b1` | `err:<tag>`
              ran = `;`-joined `a:<word,…>` | `q` | `h:<line>`   (`.` = nothing)
-    `uboot <case…>` prints the model's observation, `spec C19 <case…> || <obs…>` prints 1/0. -/
+    `uboot <case…>` prints the model's observation, `spec C19 <case…> || <obs…>` prints 1/0,
+    `ubootv <case…> || <obs…>` the per-call verdicts (ok / stop = outside the domain / bad). -/
 namespace Driver.UBoot
 open _root_.UBoot
 
@@ -81,6 +82,11 @@ def handle (toks : List String) : Option String :=
     let (ct, ot) := Driver.Shell.splitAt2 rest "||"
     some (match caseOf ct, ot.mapM obsOf with
     | some c, some os => if Spec.C19 c os then "1" else "0"
+    | _, _ => "bad-op")
+  | "ubootv" :: rest =>
+    let (ct, ot) := Driver.Shell.splitAt2 rest "||"
+    some (match caseOf ct, ot.mapM obsOf with
+    | some c, some os => Wire.sepBy "," (verdicts c [] c.ops os)
     | _, _ => "bad-op")
   | _ => none
 
